@@ -192,6 +192,7 @@ EXTRA = [
     ("forof-undefined-throws", "var r; try { for (var x of undefined) { } r = 'accepted' } catch (e) { r = e.name } r", "TypeError"),
     ("forof-null-throws", "var r; try { for (var x of null) { } r = 'accepted' } catch (e) { r = e.name } r", "TypeError"),
     ("forof-string", "var out = []; for (var ch of 'abc') out.push(ch); out.join()", "a,b,c"),
+    ("forof-typed-array-live", "var t = new Uint8Array([5, 6]), r = []; for (var v of t) { t[1] = 9; r.push(v) } r.join()", "5,9"),
     ("forof-typed-array", "var t = 0; for (var x of new Uint8Array([1, 2, 3])) t += x; t", 6),
     # return: the value starts on the line of the keyword
     ("return-newline-value", "function f(){ return\n 5 } String(f())", "undefined"),
